@@ -171,6 +171,11 @@ def freeSyms : Expr → List String
   | .add a b => freeSyms a ++ freeSyms b
   | .mul a b => freeSyms a ++ freeSyms b
 
+/-- `cirq.resolve_parameters(r1, r2, recursive=False)` on resolvers: the resolver that first applies `r1`, then `r2`
+(bindings of `r1` with `r2` substituted into them, then the bindings of `r2` for symbols `r1` does not bind) -/
+def compose (r1 r2 : Resolver) : Resolver :=
+  r1.map (fun (kv : String × Expr) => (kv.1, subst r2 kv.2)) ++ r2.filter (fun (kv : String × Expr) => (lookup r1 kv.1).isNone)
+
 /-- numeric value under a total assignment of the remaining symbols -/
 def evalAt (env : String → Rat) : Expr → Rat
   | .num q => q
